@@ -75,3 +75,22 @@ Theorem C04_report_roots_are_agreed : forall max n prev q c r,
   \/ In r (CommitSM.c_roots c).
 Proof. exact CommitSysSMP.get_outcome_roots_agreed. Qed.
 Print Assumptions C04_report_roots_are_agreed.
+
+(* 7. Liveness, PARTIAL (round level only). Once the machine is in the selecting state — which by C03_recovery happens
+      within max-checks+2 non-retry rounds from ANY previous outcome — two rounds with consensus produce a report
+      covering the pending messages of chain k: the first selects [off, min(on, off+n-1)], the second (not an RMN
+      retry, RMN disabled) generates a report containing the agreed root of k. What is NOT proved: that consensus is
+      reached in those rounds; that needs honest readers to return the same (off-ramp next, on-ramp latest) view
+      within a round (2f+1 agreement on an unconfirmed on-ramp number can otherwise fail indefinitely) — exercised by
+      the DON-simulator histories of the harness. *)
+Theorem C04_liveness_round_partial : forall max n prev q1 q2 c1 c2 k off on r,
+  CommitSM.next_state (CommitSM.o_type prev) = CommitSM.Selecting ->
+  NoDup (map fst (CommitSM.c_off c1)) -> (forall k m, alookup k (CommitSM.c_on c1) = Some m -> u64 m) -> (1 <= n)%N ->
+  In (k, off) (CommitSM.c_off c1) -> alookup k (CommitSM.c_on c1) = Some on -> (off <= on)%N ->
+  CommitSM.q_retry q2 = false -> CommitSM.q_sigs q2 = None -> In r (CommitSM.c_roots c2) ->
+  let o1 := CommitSM.get_outcome max n prev q1 (Some c1) in
+  let o2 := CommitSM.get_outcome max n o1 q2 (Some c2) in
+  CommitSM.o_type o1 = CommitSM.T_selected /\ In (k, (off, N.min on (off + n - 1))) (CommitSM.o_ranges o1) /\
+  CommitSM.o_type o2 = CommitSM.T_generated /\ In r (CommitSM.o_roots o2).
+Proof. exact CommitSysSMP.select_then_build_reports. Qed.
+Print Assumptions C04_liveness_round_partial.
